@@ -244,6 +244,8 @@ def decode_impl(cls, brty, frame):
 def main():
     ck = Check('C04')
     ck.trusted = ['Coq 8.16.1 kernel', 'extraction: ExtrOcamlBasic only; extract/c04_run.ml driver',
+                  'translate/kspec_c04.py (shape-checked extraction of the pure kernels of dep.py: PFB octet, packet number steps, '
+                  'payload slicing, RTOX tests, retry counts, frame length / start byte code and checks)',
                   'harness/sim/air.py (in-memory half-duplex air link, fake clf objects, virtual clock) and the '
                   'application loops of harness/sim/air.py:conversation']
     ck.assumptions = ['time: the initiator response waiting time is one unit of virtual time, a time-out costs exactly '
@@ -254,7 +256,7 @@ def main():
                       'driver keeps listening after lost or corrupted frames',
                       'valid configurations: DID absent or 1..14 (DID 0 with the DID flag set is modelled and '
                       'compared, but transparent recovery is not demanded of it); payloads non-empty']
-    ck.coq(targets=['Model/Dep.vo', 'Proofs/DepCodec.vo', 'Proofs/DepTarget.vo', 'Proofs/DepBound.vo', 'Proofs/DepSrr.vo',
+    ck.coq(gen=['DepK'], targets=['Model/Dep.vo', 'Bridge/Dep.vo', 'Proofs/DepCodec.vo', 'Proofs/DepTarget.vo', 'Proofs/DepBound.vo', 'Proofs/DepSrr.vo',
                     'Proofs/DepExact.vo', 'Proofs/DepSafety.vo'],
            props='C04')
     mr = ck.model()
@@ -430,11 +432,6 @@ def main():
     out = mr.run(lines)
     nmis = 0
     for line, im, got in zip(lines, expect, out):
-        # empty / truncated frames are C07's concern: where the model records the internal error of the pinned
-        # code (IndexError / ValueError) a repaired tree may answer with the documented ProtocolError instead
-        if got.startswith('crash ') and im == 'err ProtocolError':
-            ck.count('decode_frame-short-repaired')
-            continue
         if got != im:
             nmis += 1
             if nmis <= 5:
